@@ -1,6 +1,7 @@
 '''C01 Immutability: no public operation changes an existing static container.'''
 from sfa.report import Ctx
 from sfa.rules import frozen
+from sfa.rules import own
 
 LEVEL_TEXT = (
     'Static decision of the structural clauses of C01 by an array typestate analysis (read-only / fresh local allocation / '
@@ -11,13 +12,13 @@ LEVEL_TEXT = (
     'together these are an inductive invariant (owned storage is always read-only) modulo the trusted base. R4: __setstate__ '
     're-freezes every owned slot and __deepcopy__ builds them with array_deepcopy, which copies the flag; R5: caller arrays are '
     'frozen in place only under an own_* guard; R6: static classes define no mutators and rebind content slots only in '
-    'constructors/refreshers; R2: arrays returned by public methods annotated np.ndarray are read-only (three-valued). '
+    'constructors/refreshers; C.sharing-guards: a static container keeps a donor\'s hash map / level tree / itself only when the donor is static too ("the objects it was built from" clause); R2: arrays returned by public methods annotated np.ndarray are read-only (three-valued). '
     'Not decided: deep value snapshots over call sequences, mutable elements of object arrays, writes through ndarray.base, '
     'R2 returns whose flow passes an unresolved callee (counted as undecided).')
 
 CLAIM = dict(
     text=LEVEL_TEXT,
-    technique='array typestate dataflow (frozen / fresh / caller / unknown) with function summaries; inductive slot invariant R1+R3',
+    technique='array typestate dataflow (frozen / fresh / caller / unknown) with function summaries; inductive slot invariant R1+R3; guard-dominance on the sites that share donor storage',
     design_ref='DESIGN.md section 2.A and section 3 C01',
 )
 
@@ -30,4 +31,5 @@ def run(ctx: Ctx) -> None:
     frozen.r5_caller_arrays(ctx, d)
     frozen.r6_no_mutators(ctx, d)
     frozen.r2_public_returns(ctx, d)
+    own.c_sharing_guards(ctx)
     ctx.extra['call_resolution'] = dict(d.sums.stats)
